@@ -177,3 +177,57 @@ Proof.
     destruct I as [I|[I|[]]]; subst k; vm_compute in R; inversion R; subst rel; vm_compute in A; inversion A; subst q;
       vm_compute; reflexivity.
 Qed.
+
+(* ---- the hypothesis dirs_ok discharged from structural guards (Graph/InstallDirsGlue.v) ----
+   dirs_ok is an equation between realised strings (dst.append(rel) realises to dst, a separator, rel).  It follows
+   from what the Path class and find_files guarantee of an installed directory: the destination is not rooted in the
+   build directory, an absolute destination is not the file-system root, components are plain (non-empty, not . or
+   ..), and every listed file lies strictly below the directory (same root, component prefix). *)
+From BFG Require Import Graph.InstallDirsGlue.
+
+Theorem C15_dirs_ok_structural : forall env h, Forall dir_entry_ok h -> dirs_ok env h.
+Proof. exact dirs_ok_structural. Qed.
+Print Assumptions C15_dirs_ok_structural.
+
+Theorem C15_symmetry_structural : forall cs h ic ps env fs,
+  plan cs = Ok (h, ic, [CRm ps]) -> Forall dir_entry_ok h -> posts_on_files h ->
+  map (ev env) ps = copy_dests (cmds_ops env ic) /\
+  ((forall k, In k (copy_dests (cmds_ops env ic)) -> fs_get k fs = None) ->
+   run_ops (cmds_ops env [CRm ps]) (run_ops (cmds_ops env ic) fs) = fs).
+Proof. exact symmetry_structural. Qed.
+Print Assumptions C15_symmetry_structural.
+
+(* the guards are needed: a header directory installed onto the file-system root (absolute destination without
+   components: realize glues a second separator, C12 finding realize-base-ends-with-separator), and one installed
+   below the build root (a one-component executable-style realisation gets the ./ prefix, its children do not) *)
+Theorem C15_dirs_ok_guards_refuted :
+  (exists env h, ~ dirs_ok env h /\
+     h = [(File THeaderDir (sp [STR "inc"]) [] (Some [(THeader, sp [STR "inc"; STR "a.h"])]) None [], mkPath RAbs [] true)]) /\
+  (exists env h, ~ dirs_ok env h /\
+     h = [(File THeaderDir (sp [STR "inc"]) [] (Some [(THeader, sp [STR "inc"; STR "a.h"])]) None [], bp [STR "out"])]).
+Proof.
+  split; exists ex_env; eexists; (split; [|reflexivity]); intros H; inversion H as [|? ? H1 _]; subst;
+    specialize (H1 _ (THeader, sp [STR "inc"; STR "a.h"]) _ _ eq_refl eq_refl (or_introl eq_refl) eq_refl eq_refl);
+    vm_compute in H1; discriminate H1.
+Qed.
+Print Assumptions C15_dirs_ok_guards_refuted.
+
+(* the structural guard holds for the example plan *)
+Example C15_structural_nonvacuous :
+  match plan ex_calls with
+  | Ok (h, _, _) => Forall dir_entry_ok h
+  | _ => False
+  end.
+Proof.
+  assert (E : exists h ic uc, plan ex_calls = Ok (h, ic, uc)) by (vm_compute; do 3 eexists; reflexivity).
+  destruct E as [h [ic [uc E]]]. rewrite E.
+  vm_compute in E. inversion E; subst h; clear E.
+  apply Forall_forall. intros e He. cbn [In] in He.
+  repeat (destruct He as [<-|He]; [intros D; try (cbn in D; discriminate D)|]); [|destruct He].
+  cbn [fst snd] in *. split.
+  - split; [discriminate|]. split; [discriminate|]. repeat constructor; discriminate.
+  - intros l k F I. cbn in F. inversion F; subst l. clear F. split.
+    + destruct I as [I|[I|[]]]; subst k; reflexivity.
+    + destruct I as [I|[I|[]]]; subst k; eexists; (split; [reflexivity|]); (split; [discriminate|]);
+        repeat constructor; discriminate.
+Qed.
